@@ -38,6 +38,7 @@ def families(tier):
         ("M", lambda: enum2d.M(10 if q else 12), 1),
         ("D", lambda: enum2d.D(4 if q else 5), 1),
         ("Lad", lambda: ({**enum2d.ladder(K, gap=g), "ladder": K} for K in range(1, 9) for g in (0, 1, 2)), 1),
+        ("M-exotic-letters", lambda: (enum2d.exotic(c) for c in enum2d.M(7, nmin=2)), 1),
     ]
 
 
